@@ -210,7 +210,75 @@ ALPHABETS = {
     "words": ["def", "", "()", "name"],
     "pairs": [("Keyword", "def"), ("a",), (), ("Name", "f")],
     "values": [b"ab", frozenset((1, 2)), range(2), None],
+    # items that are themselves CALLABLE: an atom is any value compared with ==, also a type, a function, a method
+    # descriptor or an instance with __call__ (signatures [int, OneOrMore(str)], handler chains, ...)
+    "types": [str, bool, int, float],
+    "callables": [len, str.isdigit, None, repr],      # None is replaced below by a callable instance (needs the class)
+    # DIFFERENT items that print alike: str() / repr() / hash() may collide, == decides
+    "alike": [1, "1", "None", None],
+    "floats": [0.0, "0.0", 1e300, float("inf")],
+    "tokens": None,                                  # Tok('id', 'x') / Tok('kw', 'x'): same str and hash, unequal
+    "twins": None,                                   # four unequal instances with ONE str, ONE repr and ONE hash
 }
+
+
+class Handler:
+    """a callable instance used as an ITEM (it says yes to everything when called)"""
+
+    def __init__(self, name):
+        self.name = name
+
+    def __call__(self, *args):
+        return True
+
+    def __eq__(self, other):        # by value: the engine deep-copies its predicates, and the items in them
+        return isinstance(other, Handler) and self.name == other.name
+
+    def __hash__(self):
+        return hash(self.name)
+
+    def __repr__(self):
+        return "Handler(%r)" % self.name
+
+
+class Tok:
+    """a small hashable token: prints as its text, hashes by its text, equal when kind AND text are equal"""
+
+    def __init__(self, kind, text):
+        self.kind, self.text = kind, text
+
+    def __eq__(self, other):
+        return isinstance(other, Tok) and (self.kind, self.text) == (other.kind, other.text)
+
+    def __hash__(self):
+        return hash(self.text)
+
+    def __str__(self):
+        return self.text
+
+    def __repr__(self):
+        return "Tok(%r, %r)" % (self.kind, self.text)
+
+
+class Twin:
+    """instances that cannot be told apart by str / repr / hash, only by =="""
+
+    def __init__(self, n):
+        self.n = n
+
+    def __eq__(self, other):
+        return isinstance(other, Twin) and self.n == other.n
+
+    def __hash__(self):
+        return 7
+
+    def __repr__(self):
+        return "twin"
+
+
+ALPHABETS["callables"][2] = Handler("h")
+ALPHABETS["tokens"] = [Tok("id", "x"), Tok("kw", "x"), Tok("id", "y"), Tok("kw", "y")]
+ALPHABETS["twins"] = [Twin(1), Twin(2), Twin(3), Twin(4)]
 SPELLINGS = ("list", "bare")
 SHARINGS = ("none", "pattern", "history")
 
@@ -423,3 +491,52 @@ class PosRef:
                 break
             k_end, ok = k, acc
         return k_end, ok
+
+
+# ---- pattern families whose determinisation is exponential ------------------------------------
+# "the k+1-th item from the end is x": the subset construction needs about 2^(k+1) states from a tree of about 4k nodes,
+# while the position automaton (PosRef, the reference) has 3k positions and runs in time linear in the word.
+
+BLOWUP_FAMILIES = ("star", "plus", "tail")
+
+
+def blowup(family, k):
+    """star: (a|b)* a (a|b)^k      plus: (b|c)+ c (b|c)^k      tail: (a|b)* a (a|b)^k c?      -> (tree, letters, marker)"""
+    if family == "plus":
+        x, y, rep = 3, 2, "p"
+    else:
+        x, y, rep = 1, 2, "s"
+    any_ = ("u", ("a", x), ("a", y))
+    items = [(rep, any_), ("a", x)] + [any_] * k
+    if family == "tail":
+        items.append(("o", ("a", 3)))
+    r = items[0]
+    for it in items[1:]:        # left-nested, as a Python list is
+        r = ("c", r, it)
+    return r, (x, y), x
+
+
+def blowup_words(rnd, family, k, n):
+    """sequences around the boundary of the language: for random w over the two letters also w cut at the shortest
+    matching prefix (the prefix IS the whole sequence), one item before it, and one foreign item after it"""
+    r, (x, y), marker = blowup(family, k)
+    P = PosRef(r)
+    lead = [y] if family == "plus" else []
+    out = [lead + [marker] + [y] * k, lead + [marker] * (k + 1), lead + [y] * (k + 1)]
+    for _ in range(n):
+        w = lead + [rnd.choice((x, y)) for _ in range(rnd.randint(k + 1, 2 * k + 3))]
+        if rnd.random() < 0.5:
+            w[len(lead)] = marker
+        out.append(w)
+        sp = P.shortest_prefix(w)
+        if sp is not None:
+            out.append(w[:sp])
+            if sp > 1:
+                out.append(w[:sp - 1])
+            out.append(w[:sp] + [4])
+    seen, uniq = set(), []
+    for w in out:
+        if tuple(w) not in seen:
+            seen.add(tuple(w))
+            uniq.append(w)
+    return r, uniq
